@@ -712,8 +712,13 @@ fn op_try_unwrap(a: u8) {
                     }
                 }
             }
-            if hk::buffer_first() == addr || safe_buffer().map_or(true, |b| b.contains(&addr)) {
-                v!("C13", "P-unwrap", "try_unwrap returned Ok but the released allocation of object #{} is still buffered", id);
+            match safe_buffer() {
+                Err(e) => v!("C13", "P-unwrap", "try_unwrap returned Ok for object #{} and left the buffer damaged: {}", id, e),
+                Ok(b) => {
+                    if hk::buffer_first() == addr || b.contains(&addr) {
+                        v!("C13", "P-unwrap", "try_unwrap returned Ok but the released allocation of object #{} is still buffered", id);
+                    }
+                },
             }
             // The value now belongs to the harness: drop it (its fields release their handles)
             let _f = FrameGuard::new(Frame::Api { collect_like: false, collecting: false });
